@@ -11,6 +11,7 @@ CONSTANTS
   KillCarriesState = TRUE
   Once = TRUE
   Undecodable = {}
+  SweepKillsDraining = {TRUE, FALSE}
 INVARIANTS
   OrderOk PostStopOnlyGraceful NoOverlap NoStartAfterKill NoHandlerAfterStop KillWins SupBeforeMsg
   OneTerminal TerminalIffRan StartedOrder DeadMeansClean FailedStartSilent NoChildOfDead
